@@ -95,6 +95,16 @@ def _install_patches():
         wrapper.__name__ = name
         setattr(cls, name, wrapper)
 
+    orig_gbs = mock.Repository.get_build_status
+
+    def get_build_status(self, revision, key):
+        ans = orig_gbs(self, revision, key)
+        w = CURRENT[0]
+        if w is not None and w.in_job:
+            w.status_queries.append((revision, key, ans))
+        return ans
+    mock.Repository.get_build_status = get_build_status
+
     wrap(mock.PullRequestController, 'add_comment', 'host')
     wrap(mock.PullRequestController, 'decline', 'host')
     wrap(mock.PullRequestController, 'set_bot_status', 'host')
@@ -212,6 +222,7 @@ class World:
         self.records = []          # JobRecords
         self.clock = 0
         self.in_job = False
+        self.status_queries = []
         self.tip_history = {}      # branch -> [sha,...] every tip ever seen
         self.dir = env.mkscratch('vf-w-')
         self.home = os.path.join(self.dir, 'home')
@@ -603,13 +614,15 @@ class World:
         try:
             job = self.make_job(kind, arg, berte, **kw)
         except Exception as err:
-            rec = {'kind': kind, 'arg': arg, 'kw': kw, 'status': 'NOJOB',
+            rec = {'status_queries': [],
+                   'kind': kind, 'arg': arg, 'kw': kw, 'status': 'NOJOB',
                    'details': '%s: %s' % (type(err).__name__, err),
                    'before': before, 'after': before, 'ops': [], 'git': [],
                    'pending': [], 'job': None}
             self.records.append(rec)
             return rec
         self.in_job = True
+        self.status_queries = []
         try:
             berte.put_job(job)
             berte.process_task()
@@ -618,6 +631,7 @@ class World:
         after = self.snapshot()
         rec = {
             'kind': kind, 'arg': arg, 'kw': kw,
+            'status_queries': list(self.status_queries),
             'status': job.status, 'details': job.details,
             'before': before, 'after': after,
             'ops': [o for o in self.shim.ops() if o[0] > op0],
@@ -649,12 +663,14 @@ class World:
             before = self.snapshot()
             op0, n0 = self.shim.nops(), self.shim.ncommands()
             self.in_job = True
+            self.status_queries = []
             try:
                 job = berte.process_task()
             finally:
                 self.in_job = False
             after = self.snapshot()
-            rec = {'kind': self.job_key(job)[0], 'arg': self.job_key(job)[1],
+            rec = {'status_queries': list(self.status_queries),
+                   'kind': self.job_key(job)[0], 'arg': self.job_key(job)[1],
                    'kw': {}, 'status': job.status, 'details': job.details,
                    'before': before, 'after': after,
                    'ops': [o for o in self.shim.ops() if o[0] > op0],
